@@ -9,7 +9,7 @@ INFO = {
                   'online monitor on the pastified AST incl. rtamt.semantics.stl.discrete_time.online.precedes_timed_operation',
                   'rtamt.spec.abstract_specification.AbstractOnlineSpecification.pastify'],
     'bounds': {'quick': 'F-fut: bounded-future operators x bounds, chains depth<=2, siblings of different horizons, future under past / past '
-                        'under future; N = h+1..h+4 (h<=6); unit spellings s/ms with period 1s and 500ms; per-operator step: every operator over operands next^h1(x), next^h2(y), h1,h2 in 0..2, at the root and below a sibling of larger horizon; iff/xor/comparison connectives next to shorter siblings at depth 3; LTL pastifier on next-chains',
+                        'under future; N = h+1..h+4 (h<=6); unit spellings s/ms with period 1s and 500ms; per-operator step: every operator over operands next^h1(x), next^h2(y), h1,h2 in 0..2, at the root and below a sibling of larger horizon; iff/xor/comparison connectives next to shorter siblings at depth 3; LTL pastifier on next-chains; the notation cases of vf/pool.py (bounded-future ones against the delayed oracle, future-free ones unchanged by pastify())',
                'thorough': 'chains depth<=3, all F2 combinations of future with past/Boolean/arithmetic operators, 2000 seeded depth-3/4 formulas, N up to h+5'},
     'outside': 'horizons above 8 samples; formulas deeper than 4',
     'assumptions': ['horizon h is computed by the check itself (refsem.hor), not taken from rtamt',
